@@ -7,10 +7,10 @@ verus! {
 //@verbatim crates/pow/src/config.rs struct Config
 //@verbatim crates/pow/src/config.rs enum Error
 impl Config {
-//@repo crates/pow/src/config.rs fn Config::validate props=C09,C11
+//@repo crates/pow/src/config.rs fn Config::validate props=C01,C02,C09,C11
     pub fn validate(&self) -> (r: Result<(), Error>)
         ensures
-            r.is_ok() <==> 20 <= self.n_bits <= 50, // [C09,C11:pow-bits-in-20..=50]
+            r.is_ok() <==> 20 <= self.n_bits <= 50, // [C01,C02,C09,C11:pow-bits-in-20..=50]
     {
         if self.n_bits < MIN_PROOF_OF_WORK_BITS || self.n_bits > MAX_PROOF_OF_WORK_BITS {
             Err(Error::OutOfBounds { min: MIN_PROOF_OF_WORK_BITS, max: MAX_PROOF_OF_WORK_BITS })
@@ -52,12 +52,12 @@ pub open spec fn pow_ok(digest: Seq<u8>, n_bits: u8, nonce: u64) -> bool {
     be_nat(pow_hash(digest, n_bits, nonce).subrange(0, 16)) < pow2((128 - n_bits) as nat)
 }
 
-//@repo crates/pow/src/pow.rs fn verify_pow props=C09
+//@repo crates/pow/src/pow.rs fn verify_pow props=C01,C02,C09
 pub fn verify_pow(digest: [u8; 32], n_bits: u8, nonce: u64) -> (r: Result<(), Error>)
     requires
         n_bits <= 128, // [C18:pow-n_bits<=128-else-underflow]
     ensures
-        r.is_ok() <==> pow_ok(digest@, n_bits, nonce), // [C09:accepted-iff-hash-below-threshold]
+        r.is_ok() <==> pow_ok(digest@, n_bits, nonce), // [C01,C02,C09:accepted-iff-hash-below-threshold]
 {
     broadcast use crate::hashes::group_digest_len;
     let mut hasher = Keccak256::new();
@@ -90,13 +90,13 @@ pub fn verify_pow(digest: [u8; 32], n_bits: u8, nonce: u64) -> (r: Result<(), Er
 //@end
 
 impl UnsentCommitment {
-//@repo crates/pow/src/pow.rs fn UnsentCommitment::commit props=C09,C08
+//@repo crates/pow/src/pow.rs fn UnsentCommitment::commit props=C01,C02,C08,C09
     pub fn commit(&self, transcript: &mut Transcript, config: &Config) -> (r: Result<(), Error>)
         requires
             config.n_bits <= 128, // [C18:commit-needs-validated-n_bits]
         ensures
-            r.is_ok() <==> pow_ok(be32(old(transcript).digest@), config.n_bits, self.nonce), // [C09:commit-checks-pow-on-pre-state-digest]
-            r.is_ok() ==> final(transcript).digest@ == ts_absorb1(old(transcript).digest@, self.nonce as nat) && final(transcript).counter@ == 0, // [C08,C09:nonce-absorbed-after-check]
+            r.is_ok() <==> pow_ok(be32(old(transcript).digest@), config.n_bits, self.nonce), // [C01,C02,C09:commit-checks-pow-on-pre-state-digest]
+            r.is_ok() ==> final(transcript).digest@ == ts_absorb1(old(transcript).digest@, self.nonce as nat) && final(transcript).counter@ == 0, // [C01,C02,C08,C09:nonce-absorbed-after-check]
             r.is_err() ==> *final(transcript) == *old(transcript), // [C09:err-leaves-transcript]
     {
         verify_pow(transcript.digest().to_bytes_be(), config.n_bits, self.nonce)?;
